@@ -56,10 +56,12 @@ def G(tag, doc, shape, want, enc, **kw):
 
 
 def big_paths(g, ttok, btok):
-    """paths for a group whose longest text token has ttok bytes and whose longest binary token has btok bytes: buffers that
-    just hold the token (the documented requirement), no default-buffer entry point"""
-    g["tp"] = ["slice", "tape", "reader:%d:-" % (ttok + 8), "reader:%d:4099,1*" % (ttok + 64), "objreader", "mslice"]
-    g["bp"] = ["tape", "slice", "reader:%d:-" % (btok + 4), "reader:%d:4099,1*" % (btok + 64), "bslice", "btape", "fslice"]
+    """paths for a group whose longest text token has ttok bytes and whose longest binary token has btok bytes: a buffer of
+    EXACTLY the token's size (the documented requirement: `large enough to decode an entire token`) and a roomier one under a
+    chopped schedule; no default-buffer entry point"""
+    ttok, btok = max(ttok, 32), max(btok, 16)
+    g["tp"] = ["slice", "tape", "reader:%d:-" % ttok, "reader:%d:4099,1*" % (ttok + 64), "objreader", "mslice"]
+    g["bp"] = ["tape", "slice", "reader:%d:-" % btok, "reader:%d:4099,1*" % (btok + 64), "bslice", "btape", "fslice"]
     return g
 
 
